@@ -287,6 +287,10 @@ func parseDirectives(doc string, hs *HarnessSpec) {
 				hs.Cfg.Cut, _ = strconv.Atoi(p[1])
 			case "prunefrom":
 				hs.Cfg.PruneFrom, _ = strconv.Atoi(p[1])
+			case "prune":
+				hs.Cfg.PruneAll = p[1] == "all"
+			case "concf2i":
+				hs.Cfg.ConcF2I = p[1] == "1"
 			case "wall":
 				hs.WallS, _ = strconv.Atoi(p[1])
 			case "noinit":
